@@ -1,5 +1,6 @@
 // Correspondence harness for C15: SPDE operators, projections and solvers are mutually consistent.
 #include "krig_common.hpp"
+#include <set>
 #include "Mesh/MeshETurbo.hpp"
 #include "Mesh/MeshEStandard.hpp"
 #include "LinearOp/ShiftOpCs.hpp"
@@ -67,6 +68,43 @@ int main()
         }
       else printf("u outside %d =>\n", -1);
       delete dbp;
+    }
+
+    // ---- points that belong to the (closed) mesh by construction: centroids, apices, edge midpoints
+    {
+      int nmesh = mesh->getNMeshes(), nc = mesh->getNApexPerMesh();
+      std::vector<std::vector<double>> P; std::vector<const char*> kind;
+      std::set<std::vector<double>> seen;
+      auto add = [&](const std::vector<double>& p, const char* k) { if ((int)P.size() < 60 && seen.insert(p).second) { P.push_back(p); kind.push_back(k); } };
+      std::vector<int> order(nmesh); for (int i = 0; i < nmesh; i++) order[i] = i;
+      for (int i = nmesh - 1; i > 0; i--) std::swap(order[i], order[rng.range(0, i)]);      // boundary and inner elements alike
+      for (int io = 0; io < nmesh && (int)P.size() < 60; io++)
+      {
+        int im = order[io];
+        std::vector<std::vector<double>> A(nc, std::vector<double>(ndim));
+        for (int c = 0; c < nc; c++) for (int d = 0; d < ndim; d++) A[c][d] = mesh->getCoor(im, c, d);
+        std::vector<double> g(ndim, 0.); for (int c = 0; c < nc; c++) for (int d = 0; d < ndim; d++) g[d] += A[c][d] / nc;
+        add(g, "centroid");
+        if (rotated) continue;        // apex coordinates of a rotated grid are rounded: boundary points are not exactly on the boundary
+        for (int c = 0; c < nc; c++) add(A[c], "apex");
+        for (int c = 0; c < nc; c++) for (int e = c + 1; e < nc; e++) { std::vector<double> m(ndim); for (int d = 0; d < ndim; d++) m[d] = (A[c][d] + A[e][d]) / 2.; add(m, "edge_midpoint"); }
+      }
+      if (!P.empty())
+      {
+        Db* dbp = makeDb(P, ndim, {}, {}, {}, {});
+        ProjMatrix proj(dbp, mesh);
+        if (proj.getNRows() == (int)P.size() && proj.getNCols() == napex)
+          for (int k = 0; k < (int)P.size(); k++)
+          {
+            std::vector<double> ws, aps; int nnz = 0;
+            for (int j = 0; j < napex; j++) { double w = proj.getValue(k, j); if (w != 0.) { nnz++; ws.push_back(w); for (int d = 0; d < ndim; d++) aps.push_back(mesh->getApexCoor(j, d)); } }
+            if (nnz == 0) printf("u inside %s %s %d =>\n", kind[k], vecD(P[k]).c_str(), nnz);
+            else printf("u proj %d %s %s %s =>\n", ndim, vecD(P[k]).c_str(), vecD(aps).c_str(), vecD(ws).c_str());
+            st.hit(std::string("projection_of_") + kind[k]);
+          }
+        else printf("u outside %d =>\n", -1);
+        delete dbp;
+      }
     }
 
     // ---- precision: matrix-free operator vs assembled sparse matrix; symmetry and positive definiteness
